@@ -264,6 +264,13 @@ class Check:
             self.broken.append(("build", m))
         for d in lock_diff(self.props_modules):
             self.broken.append(("theorem-lock", d))
+        if self.tier == "thorough" and not self.broken:
+            # the toolchain's independent re-checker replays the compiled property modules against the kernel
+            p = subprocess.run(["lake", "env", "leanchecker"] + list(self.props_modules), cwd=LEAN, capture_output=True, text=True)
+            self.extra["leanchecker"] = {"modules": list(self.props_modules), "exit": p.returncode,
+                                         "output": (p.stdout + p.stderr)[-400:]}
+            if p.returncode != 0:
+                self.broken.append(("leanchecker", (p.stdout + p.stderr)[-300:]))
         self.audit_info = {"obligations": obligations, "discharged": discharged, "axioms": detail}
         return not self.broken
 
